@@ -1,0 +1,23 @@
+//go:build verif
+// +build verif
+
+package raczlib
+
+import (
+	"io"
+
+	"github.com/google/wuffs/lib/internal/racdict"
+	"github.com/google/wuffs/lib/rac"
+)
+
+// VerifDictLoader exports lib/internal/racdict.Loader (the shared-dictionary
+// loader that CodecReader.MakeDecompressor uses, including its one-entry cache)
+// for the /verif C15 correspondence check. Compiled only with -tags verif.
+type VerifDictLoader struct {
+	l racdict.Loader
+}
+
+// Load is racdict.Loader.Load.
+func (v *VerifDictLoader) Load(rs io.ReadSeeker, chunk rac.Chunk) ([]byte, error) {
+	return v.l.Load(rs, chunk)
+}
